@@ -2,6 +2,8 @@
 package main
 
 import (
+	"sync"
+	"sync/atomic"
 	"fmt"
 	"go/token"
 	"go/types"
@@ -194,7 +196,9 @@ func newState() *State {
 
 var genCounter int
 
-func newGen() int { genCounter++; return genCounter }
+func newGen() int { return int(atomic.AddInt64(&genCounter64, 1)) }
+
+var genCounter64 int64
 
 func keyHasPrefix(k, p string) bool {
 	return k == p || strings.HasPrefix(k, p+".") || strings.HasPrefix(k, p+"#")
@@ -473,9 +477,12 @@ func typeKey(t types.Type) string {
 }
 
 var arrFieldIds = map[string]int{}
+var arrFieldMu sync.Mutex
 
 // arrIdOf gives the memory array id of an array-typed field (key) of object ref.
 func arrIdOf(ref, key string) string {
+	arrFieldMu.Lock()
+	defer arrFieldMu.Unlock()
 	k, ok := arrFieldIds[key]
 	if !ok {
 		k = len(arrFieldIds) + 1
